@@ -416,10 +416,10 @@ Proof.
     intros c r c' Hc Ht. rewrite compile_do in Hc. eapply cbranch_mono; eassumption.
   - destruct IHe as [M S]. split; [|apply sim_setv; exact S].
     intros c r c' Hc Ht. cbn [compile] in Hc. destruct (compile e c) as [r1 c1] eqn:E.
-    destruct (rt r1); inversion Hc; subst; [eapply M; eassumption | reflexivity].
+    destruct (plain_assign r1); inversion Hc; subst; [eapply M; eassumption | reflexivity].
   - destruct IHe as [M S]. split; [|apply sim_setx; exact S].
     intros c r c' Hc Ht. cbn [compile] in Hc. destruct (compile e c) as [r1 c1] eqn:E.
-    destruct (rt r1); inversion Hc; subst; [eapply M; eassumption | reflexivity].
+    destruct (plain_assign r1); inversion Hc; subst; [eapply M; eassumption | reflexivity].
   - destruct (Forall_split2 _ _ _ H) as [HM HS]. split; [|apply sim_bool; assumption].
     intros c r c' Hc Ht. destruct es as [|e0 es]; [cbn [compile] in Hc; inversion Hc; subst; exact Ht|].
     inversion HM as [|? ? M0 Mes]; subst.
